@@ -120,6 +120,9 @@ impl<M: Model> Receiver<M> {
 
         match msg {
             Some(mut msg) => {
+                #[cfg(nexosim_verif)]
+                crate::verif::point(11, Arc::as_ptr(&self.inner) as *const () as usize, 0);
+
                 // Decrement the count of in-flight messages.
                 THREAD_MSG_COUNT.set(THREAD_MSG_COUNT.get().wrapping_sub(1));
 
@@ -240,6 +243,9 @@ impl<M: Model> Sender<M> {
             .await;
 
         if success {
+            #[cfg(nexosim_verif)]
+            crate::verif::point(10, Arc::as_ptr(&self.inner) as *const () as usize, 0);
+
             self.inner.receiver_signal.notify();
 
             // Increment the count of in-flight messages.
